@@ -2,6 +2,7 @@ package endpointanalysisdiagram
 
 import (
 	"fmt"
+	"sort"
 
 	"github.com/anz-bank/sysl/pkg/mermaid"
 	"github.com/anz-bank/sysl/pkg/sysl"
@@ -33,9 +34,11 @@ func generateEndpointAnalysisDiagramHelper(m *sysl.Module,
 		result = mermaid.GeneratedHeader + "graph TD\n"
 	}
 	count := 1
-	for appName, app := range m.Apps {
+	for _, appName := range sortedKeys(m.Apps) {
+		app := m.Apps[appName]
 		result += fmt.Sprintf(" subgraph %d[\"%s\"]\n", count, appName)
-		for epName, endPoint := range app.Endpoints {
+		for _, epName := range sortedKeys(app.Endpoints) {
+			endPoint := app.Endpoints[epName]
 			statements := endPoint.Stmt
 			result += printEndpointAnalysisStatements(m, statements, mermaid.CleanString(epName), externalLinks)
 		}
@@ -58,7 +61,8 @@ func generateMultipleAppEndpointAnalysisDiagramHelper(m *sysl.Module, appNames [
 	for _, appName := range appNames {
 		result += fmt.Sprintf(" subgraph %d[\"%s\"]\n", count, appName)
 		endPoints := m.Apps[appName].Endpoints
-		for epName, endPoint := range endPoints {
+		for _, epName := range sortedKeys(endPoints) {
+			endPoint := endPoints[epName]
 			statements := endPoint.Stmt
 			result += printEndpointAnalysisStatements(m, statements, mermaid.CleanString(epName), externalLinks)
 		}
@@ -115,4 +119,15 @@ func externalLinksContain(i []externalLink, ip externalLink) bool {
 		}
 	}
 	return false
+}
+
+// sortedKeys returns the keys of a string-keyed map in sorted order, so that walking the model's
+// maps always gives the same diagram text.
+func sortedKeys[V any](m map[string]V) []string {
+	keys := make([]string, 0, len(m))
+	for k := range m {
+		keys = append(keys, k)
+	}
+	sort.Strings(keys)
+	return keys
 }
